@@ -16,6 +16,7 @@
 #include "scen_c09.h"
 #include "scen_c15.h"
 #include "scen_c14.h"
+#include "scen_c12.h"
 #include "scen_tpm12.h"
 
 int main(int argc, char **argv) {
@@ -41,6 +42,7 @@ int main(int argc, char **argv) {
     else if (!strcmp(prop, "C06")) scen_c06(thorough ? 12 : 3, 30, thorough ? 4000 : 350);
     else if (!strcmp(prop, "C01")) scen_c01(thorough ? 40 : 5, 25, thorough ? 1500 : 400);
     else if (!strcmp(prop, "C13")) scen_c13(thorough ? 2500 : 250, thorough ? 3 : 1);
+    else if (!strcmp(prop, "C12")) scen_c12(thorough ? 120 : 9, thorough ? 150 : 60, thorough);
     else if (!strcmp(prop, "C14")) scen_c14(thorough ? 400 : 40);
     else if (!strcmp(prop, "C15")) scen_c15(thorough ? 4 : 3, thorough ? 400 : 60, 12, (int)(seed % 1000), thorough ? 16 : 6);
     else if (!strcmp(prop, "C09")) scen_c09(thorough ? 100 : 8, thorough ? 500 : 200);
